@@ -1,5 +1,11 @@
 package verifrt
 
-import "math"
+import (
+	"math"
+	"unicode/utf8"
+)
 
 func mathFloat64frombits(b uint64) float64 { return math.Float64frombits(b) }
+
+func utf8DecodeRuneInString(s string) (rune, int) { return utf8.DecodeRuneInString(s) }
+func utf8AppendRune(b []byte, r rune) []byte      { return utf8.AppendRune(b, r) }
